@@ -220,6 +220,19 @@ func VH_C20_Named(p []int) {
 		root = And().Push("a", Or().SetParen(pb()).Push((*Stack)(nil)), "b")
 	case 9:
 		root = And().Push(Or().SetParen(pb()).Push((*Condition)(nil)), List().Push((*vhAliasStack)(nil)))
+	case 11: // zero-valued instances in the first slot, a needless envelope behind them
+		var first any
+		switch nondetChoice(4) {
+		case 0:
+			first = vhAliasStack{}
+		case 1:
+			first = &Stack{}
+		case 2:
+			first = Cond("k", Eq, vhAliasStack{})
+		default:
+			first = Stack{}
+		}
+		root = And().SetMutex().Push(first, Or().SetParen(pb()).Push(And().Push("x", "y")), Or().Push(Cond("c", Ne, "v")))
 	case 10: // read-only, mutex-enabled nested nodes
 		ro := func(s Stack) Stack { return s.SetMutex().SetReadOnly(true) }
 		root = And().SetMutex().Push(ro(Or().Push("x", "y")), ro(Or().SetParen(pb()).Push(And().Push("p", "q"))), ro(Not().Push(Or().Push("n"))))
